@@ -121,6 +121,7 @@ def run(R):
             R.ob("C11-R2", "store-per-window", "each window's plan runs against a store owned by that window", ok, where=rw.where(),
                  detail=None if ok else "every processor receives a clone of the single RSPEngine.r2r handle; window contents of all "
                  "streams share one default graph and each window plan matches the other windows' items")
+    r3(R)
     # conforming sibling (cited): execute_window_plans_on_external_buckets builds a fresh database per window
     sib = prog.one("rsp_engine::execute_window_plans_on_external_buckets", crate="kolibrie")
     if sib is not None:
@@ -196,3 +197,74 @@ def _guard_of_param(b, op, param, depth=0):
     if o[0] == "call" and o[1].args:
         return _guard_of_param(b, o[1].args[0], param, depth + 1)
     return False
+
+
+def r3(R):
+    """the natural join of window results / static bindings compares every shared variable before merging two rows"""
+    from lib import guards as G
+    prog = R.prog
+    R.rule("C11-R3", "join compatibility: natural_join merges two binding rows only after a check that ranges over every entry of one "
+                     "row, looks the variable up in the other row and compares the values; the merge is controlled by that check")
+    nj = R.body("C11-R3", "rsp_engine::natural_join", crate="kolibrie")
+    if nj is None:
+        return
+    ROW = "std::collections::hash::map::HashMap<alloc::string::String, alloc::string::String>"
+    fam = prog.family(nj.key)
+    pushes = []
+    for x in fam:
+        for c in x.calls():
+            if c.name() in ("push", "extend") and len(c.args) == 2:
+                pl = F.op_place(c.args[1])
+                if pl is not None and x.local_ty(pl["l"]).replace("&", "").strip() == ROW:
+                    pushes.append((x, c))
+    R.floor("C11-R3", "row emissions in natural_join", len(pushes), 1)
+    for x, pc in pushes:
+        # compatibility loops: loops that iterate a row (next() on an iterator over a row map), look a key up in a row (`get`)
+        # and compare values (eq/ne)
+        ok = False
+        why = "no loop over the entries of a row with a lookup in the other row and a value comparison"
+        for h, body in x.loops():
+            calls_in = [c for c in x.calls() if c.bb in body]
+            row_iter = any(c.name() == "next" and c.args and "hash::map::Iter<'_, alloc::string::String, alloc::string::String>" in x.local_ty(F.op_place(c.args[0])["l"]) for c in calls_in if F.op_place(c.args[0]))
+            lookups = [c for c in calls_in if c.name() in ("get", "contains_key") and c.args and ROW in x.local_ty(F.op_place(c.args[0])["l"]) ]
+            cmps = [c for c in calls_in if c.name() in ("ne", "eq")]
+            if not (row_iter and lookups and cmps):
+                continue
+            if pc.bb in body and h == min((hh for hh, bd in x.loops() if pc.bb in bd), key=lambda v: 0, default=None):
+                pass
+            # flags: bool locals initialised before the loop and re-assigned in a block the loop header dominates (in the body or on
+            # a `break` edge out of it)
+            flags = set()
+            for l, ds in x.defs().items():
+                if x.local_ty(l) != "bool":
+                    continue
+                blocks = [d[1] for d in ds if d[0] == "assign" and d[3]["rv"] == "use" and d[3]["op"].get("k") == "const"]
+                if len(blocks) >= 2 and any(x.dominates(bk, h) and bk != h for bk in blocks) and \
+                        any(x.dominates(h, bk) and (bk in body or any(p_ in body for p_ in x.pred(bk))) for bk in blocks):
+                    flags.add(l)
+            # the emission must come after the loop (not inside it) and be controlled by one of its flags
+            if pc.bb in body:
+                why = "rows are emitted inside the comparison loop, before every shared variable was compared"
+                continue
+            conds = G.conditions(x, pc.bb)
+            controlled = False
+            for c in conds:
+                if c["kind"] == "other" and c.get("local") in flags and c.get("truth") is True:
+                    controlled = True
+                if c["kind"] == "call" and c["call"].name() == "all" and c["truth"] is True:
+                    controlled = True
+            if controlled:
+                ok = True
+            else:
+                why = "the emission is not controlled by the outcome of the comparison loop"
+        # alternative shape: iterator `.all(|(var, val)| other.get(var).map_or(true, |v| v == val))`
+        if not ok:
+            for c in x.calls():
+                if c.name() == "all" and any(cd["kind"] == "call" and cd["call"] is c and cd["truth"] is True for cd in G.conditions(x, pc.bb)):
+                    from c19 import closure_family_calls
+                    key, inner = closure_family_calls(prog, x, c.args[1]) if len(c.args) > 1 else (None, [])
+                    names = [ic.name() for xx, ic in inner]
+                    if "get" in names and ("eq" in names or "ne" in names):
+                        ok = True
+        R.ob("C11-R3", "compatible-before-merge", "two rows are merged only after all their shared variables were compared", ok, where=x.where(pc.ln),
+             detail=None if ok else why + " — rows that disagree on a shared variable are merged and one window's value overwrites the other's")
